@@ -8,9 +8,13 @@ def main(pid, tier="quick", seed=1, show=3):
     chk.prepare()
     if not chk.lake_ok:
         print(chk.lake_out[-2000:])
-    streams = list(prop.corpus(chk)) + list(prop.scripts(tier, seed, 1))
-    scripts = [s for _, s in streams]
-    c, m = chk.run_pair(scripts)
+    streams, c, m = [], [], []
+    for part in chk.parts():
+        st = list(part.corpus(chk)) + list(part.scripts(tier, seed, 1))
+        c1, m1 = chk.run_pair([s for _, s in st], part)
+        streams += st
+        c += c1
+        m += m1
     groups = collections.defaultdict(list)
     for (name, script), cr, mr in zip(streams, c, m):
         res = run.compare_script(script, cr, mr)
